@@ -669,9 +669,22 @@ def selector_info(repo) -> SelectorInfo:
     return info
 
 
+def facts_resolved(node, fn_node):
+    """facts() with a bare local that was assigned once from a boolean expression replaced by that expression."""
+    out = []
+    for e, p in facts(node, fn_node):
+        if isinstance(e, ast.Name):
+            v = single_assign(fn_node, e.id)
+            if isinstance(v, (ast.Compare, ast.BoolOp)) or (isinstance(v, ast.UnaryOp) and isinstance(v.op, ast.Not)):
+                out.extend(atoms(v, p))
+                continue
+        out.append((e, p))
+    return out
+
+
 def _direction_of(ret, fn: FuncInfo, dparam: str) -> Optional[str]:
     pol = None
-    for e, p in facts(ret, fn.node):
+    for e, p in facts_resolved(ret, fn.node):
         if isinstance(e, ast.Compare) and len(e.ops) == 1 and isinstance(e.ops[0], (ast.Eq, ast.NotEq, ast.Is, ast.IsNot)):
             l, r = ap(e.left) or "", ap(e.comparators[0]) or ""
             if dparam in (l, r):
@@ -1646,6 +1659,55 @@ def r6(ctx):
                        f"leaves a {'newest-first' if desc else 'oldest-first'} walk when the element is too "
                        f"{verdicts[0]}: the remaining (still counting) injections are skipped and the id is "
                        f"translated by too little")
+        # walks written as comprehensions: `next((.. for p in <injections> if <cond>), default)` leaves at the first
+        # element satisfying <cond>; any other comprehension over the deque visits every element
+        for g_fn in {fi0} | {f for f, _ in found}:
+            for comp in [x for x in walk(g_fn.node, into_defs=True) if isinstance(x, (ast.GeneratorExp, ast.ListComp, ast.SetComp))]:
+                gen = comp.generators[0]
+                it = gen.iter
+                order_it = it
+                enumerated = isinstance(it, ast.Call) and ap(it.func) == "enumerate" and it.args
+                if enumerated:
+                    order_it = it.args[0]
+                base = ap(_iter_base(order_it)) or ""
+                if not (base.endswith(".injections") or any(f is g_fn and (ap(_iter_base(l.iter)) or "") == base for f, l in found)):
+                    continue
+                if len(comp.generators) != 1:
+                    raise AnalysisError(f"{q}: nested comprehension over the injections")
+                n += 1
+                desc = isinstance(order_it, ast.Call) and ap(order_it.func) == "reversed"
+                if isinstance(order_it, ast.Call) and not desc:
+                    raise AnalysisError(f"{q}: iteration order of `{norm(it)}` unknown")
+                tgt = gen.target
+                if enumerated and isinstance(tgt, ast.Tuple) and len(tgt.elts) == 2:
+                    tgt = tgt.elts[1]
+                if not isinstance(tgt, ast.Name):
+                    raise AnalysisError(f"{q}: comprehension target over the injections is not a name")
+                elem = tgt.id
+                par = parent(comp)
+                first_only = isinstance(par, ast.Call) and ap(par.func) == "next" and par.args and par.args[0] is comp
+                if not first_only or not gen.ifs:
+                    ctx.ob("C05.R6", f"{q}: walk over {norm(it)} has no early exit", True, ctx.w(g_fn, comp))
+                    continue
+                verdicts = []
+                for cond in gen.ifs:
+                    for e, pol in atoms(cond, True):
+                        if isinstance(e, ast.Compare) and len(e.ops) == 1 and isinstance(e.ops[0], (ast.Lt, ast.LtE, ast.Gt, ast.GtE)):
+                            l_, r_ = e.left, e.comparators[0]
+                            l_ = l_.target if isinstance(l_, ast.NamedExpr) else l_
+                            r_ = r_.target if isinstance(r_, ast.NamedExpr) else r_
+                            gt = isinstance(e.ops[0], (ast.Gt, ast.GtE))
+                            if ap(l_) == elem:
+                                verdicts.append("large" if gt == pol else "small")
+                            elif ap(r_) == elem:
+                                verdicts.append("large" if (not gt) == pol else "small")
+                if not verdicts:
+                    raise AnalysisError(f"{q}: `next()` over the injections stops on a condition that does not compare the element")
+                ok = all(v == ("small" if desc else "large") for v in verdicts)
+                ctx.ob("C05.R6", f"{q}: early exit of the {'descending' if desc else 'ascending'} walk only on element too "
+                                 f"{'small' if desc else 'large'}", ok, ctx.w(g_fn, comp),
+                       f"`next()` settles on the first element that is too {verdicts[0]} of a "
+                       f"{'newest-first' if desc else 'oldest-first'} walk: the remaining (still counting) injections are skipped")
     ctx.floor("C05.R6", "translation loops", n, 2)
     # the C04 tracker rules (early-exit soundness, forward/inverse symmetry) re-run under C05 keys when the
     # C04 module exposes them; the own version above keeps C05 independent of that module's presence
@@ -1873,6 +1935,51 @@ def r8(ctx):
     ctx.floor("C05.R8", "circuit (re)constructions", n, 1)
 
 
+def r9(ctx):
+    repo = ctx.repo
+    ctx.rule("C05.R9", "the injection trackers of a proxied circuit keep the tracker's own declared window: an id that "
+                       "falls out of the window stops being recognised as injected (its ack is forwarded) and shifts "
+                       "every translation, so the window is not tied to / shrunk below InjectionTracker's default")
+    tinit = repo.fn("InjectionTracker.__init__")
+    ev = ConstEval(repo, tinit.module)
+    a = tinit.node.args
+    names = [x.arg for x in a.args]
+    ctx.require("maxlen" in names, "InjectionTracker.__init__ has no maxlen parameter any more: read it and extend C05.R9")
+    di = names.index("maxlen") - (len(names) - len(a.defaults))
+    default = ev.ev(a.defaults[di]) if 0 <= di < len(a.defaults) else None
+    ctx.require(isinstance(default, int), "InjectionTracker maxlen default is not a constant")
+    pos = names.index("maxlen") - 1
+    n = 0
+    for f in repo.cls("ProxiedCircuit", PCIRC).methods.values():
+        for c in find_calls(f.node, "InjectionTracker", into_defs=True):
+            n += 1
+            arg = c.args[pos] if len(c.args) > pos else next((k.value for k in c.keywords if k.arg == "maxlen"), None)
+            if arg is None:
+                ctx.ob("C05.R9", f"{f.qual}: {norm(c)} uses the tracker's declared window", True, ctx.w(f, c))
+                continue
+            val = ConstEval(repo, f.module).ev(arg)
+            if not isinstance(val, int):
+                # `<obj>.<deque field>.maxlen`: the window some other component declared for itself
+                p_ = ap(arg) or ""
+                if p_.startswith("self.") and p_.endswith(".maxlen") and f.cls is not None:
+                    field = p_[5:-7]
+                    for k in repo.mro(f.cls):
+                        init = k.methods.get("__init__")
+                        for st in (stores(init.node) if init is not None else []):
+                            if st.path == f"self.{field}" and st.kind == "assign" and isinstance(st.value, ast.Call) \
+                                    and call_attr(st.value) == "deque":
+                                mv = next((kk.value for kk in st.value.keywords if kk.arg == "maxlen"), None)
+                                v2 = ConstEval(repo, k.module).ev(mv) if mv is not None else None
+                                if isinstance(v2, int):
+                                    val = v2
+            if not isinstance(val, int):
+                raise AnalysisError(f"{f.qual}: tracker window `{norm(arg)}` is not a decidable constant")
+            ctx.ob("C05.R9", f"{f.qual}: {norm(c)} keeps at least the tracker's declared window", val >= default, ctx.w(f, c),
+                   f"window {val} (from `{norm(arg)}`) is smaller than InjectionTracker's own {default}: after {val} injections "
+                   f"in one direction acks for the proxy's own packets are forwarded and older ids are mistranslated")
+    ctx.floor("C05.R9", "tracker constructions in ProxiedCircuit", n, 2)
+
+
 def run(ctx):
     r1(ctx)
     r2(ctx)
@@ -1882,6 +1989,7 @@ def run(ctx):
     r6(ctx)
     r7(ctx)
     r8(ctx)
+    r9(ctx)
     ctx.assume("interleaving-level truthfulness and resend cadence (time) are not decided statically")
     ctx.note("drop_message's stand-in PacketAck reuses the dropped packet's id as a synthetic id "
              "(wire-id space vs endpoint-id space) - observed, not armed")
